@@ -621,26 +621,51 @@ func c08Wide(c *Ctx, p *Prog, ms map[string]*ssa.Function) {
 			continue
 		}
 		var site ssa.Instruction
+		widthNames := map[string]bool{} // parameters of a helper that are bound to the width at its call
 		widthBounded := func(b *ssa.BasicBlock) bool {
 			for _, a := range guardsAt(b) {
-				if (a.Op == "<" && strings.HasSuffix(a.R, ".width")) || (a.Op == ">" && strings.HasSuffix(a.L, ".width")) {
+				if (a.Op == "<" && (strings.HasSuffix(a.R, ".width") || widthNames[a.R])) || (a.Op == ">" && (strings.HasSuffix(a.L, ".width") || widthNames[a.L])) {
 					return true
 				}
 			}
 			return false
 		}
-		for _, call := range callsIn(fn, func(n string, cc *ssa.CallCommon) bool { return strings.HasSuffix(n, "CellBuffer).SetDirty") }) {
-			cc := callCommon(call)
-			if v, ok := constBool(cc.Args[3]); ok && v {
-				if bo, ok := cc.Args[1].(*ssa.BinOp); ok && bo.Op == token.ADD && widthBounded(call.Block()) {
-					site = call
+		findSite := func(f *ssa.Function) ssa.Instruction {
+			var out ssa.Instruction
+			for _, call := range callsIn(f, func(n string, cc *ssa.CallCommon) bool { return strings.HasSuffix(n, "CellBuffer).SetDirty") }) {
+				cc := callCommon(call)
+				if v, ok := constBool(cc.Args[3]); ok && v {
+					if bo, ok := cc.Args[1].(*ssa.BinOp); ok && bo.Op == token.ADD && widthBounded(call.Block()) {
+						out = call
+					}
 				}
 			}
+			// or a direct force-dirty store (lastMain = 0) into a neighbouring cell, bounded by the width
+			for _, st := range storesTo(f, cellOwner, "lastMain") {
+				if k, ok := constInt(st.Val); ok && k == 0 && widthBounded(st.Block()) {
+					out = st
+				}
+			}
+			return out
 		}
-		// or a direct force-dirty store (lastMain = 0) into a neighbouring cell, bounded by the width
-		for _, st := range storesTo(fn, cellOwner, "lastMain") {
-			if k, ok := constInt(st.Val); ok && k == 0 && widthBounded(st.Block()) {
-				site = st
+		site = findSite(fn)
+		if site == nil {
+			// the dirtying in a helper of the cell buffer: the site is the call of that helper
+			for _, call := range callsIn(fn, func(_ string, cc *ssa.CallCommon) bool {
+				h := cc.StaticCallee()
+				return h != nil && h != fn && len(h.Blocks) > 0 && recvTypeName(h) == "tcell.CellBuffer"
+			}) {
+				h := callCommon(call).StaticCallee()
+				widthNames = map[string]bool{}
+				for i, a := range callCommon(call).Args {
+					if i < len(h.Params) && strings.HasSuffix(valName(a), ".width") {
+						widthNames[h.Params[i].Name()] = true
+					}
+				}
+				if findSite(h) != nil {
+					site = call
+				}
+				widthNames = map[string]bool{}
 			}
 		}
 		key := name + ":wide-dirty-loop"
